@@ -26,7 +26,7 @@ THEOREMS = ["C11_lists_aligned", "C11_rows_are_engine_answers", "C11_transcript_
             "C11_answer_of_tree_reads", "C11_real_engine_transcript_legal", "C11_real_engine_rows_partial",
             "C11_real_engine_answers_good_partial", "C11_real_engine_exact_solver_rows_partial",
             "C11_transcript_positions_wf", "C11_transcript_positions_encodable",
-            "C11_source_play_one_game_eq", "C11_source_play_outcomes", "C11_source_results_eq", "C11_source_logits_agrees", "C11_source_transcript_chain", "C11_source_stops_exactly", "C11_source_result_correct", "C11_source_labels_correct"]
+            "C11_source_play_one_game_eq", "C11_source_play_outcomes", "C11_source_results_eq", "C11_source_logits_agrees", "C11_source_transcript_chain", "C11_source_stops_exactly", "C11_source_result_correct", "C11_source_labels_correct", "C11_source_real_engine"]
 MODEL_TARGETS = ["model/Tak.vo", "model/Road.vo", "model/SelfPlay.vo", "model/Harness.vo", "model/Lit.vo"]
 TRUSTED_BASE = [
     "the engine is an input stream: per analysed position the recorder reads [c.move for c in tree.children], "
